@@ -70,8 +70,8 @@ def r1_wrappers(rep, facts):
                 rep.check(R, f'{sup}>={sub}|{m}', m in impls[sup], 'specialised', f'`{sub}` specialises `{m}` but `{sup}` does not: {why}')
 
 
-def r2_tunnel(rep, facts):
-    R = rep.rule('C13/R2', 'date-time tunnel in every tree walker: value-position serializers recognise the date-time struct name (or delegate to '
+def r2_tunnel(rep, facts, rid='C13/R2'):
+    R = rep.rule(rid, 'date-time tunnel in every tree walker: value-position serializers recognise the date-time struct name (or delegate to '
                  'one that does); value deserializers present a Datetime as the private single-field map', floor=7)
     impls = sm.ser_impls(facts)
     for ty, role in sm.SER_ROLES.items():
@@ -110,7 +110,9 @@ def r2_tunnel(rep, facts):
             okf = any((x.get('path') or '').endswith('datetime::FIELD') for x in walk(b['body']) if x.get('k') == 'path')
             rep.check(R, f'{d.split(" as ")[0].lstrip("<")}|key', okf, 'key = FIELD', f'`{d}` does not offer the private date-time field name', facts.loc(b))
         if 'DatetimeDeserializer' in d and last_seg(strip_generics(d)) == 'next_value_seed':
-            okv = any(x.get('k') == 'mcall' and x.get('name') == 'to_string' for x in walk(b['body']))
+            # printed with Display: `.to_string()` or a `format!` of it (both go through Display for Datetime, whose text C12 decides)
+            okv = any(x.get('k') == 'mcall' and x.get('name') == 'to_string' for x in walk(b['body'])) or \
+                any(c == 'alloc::fmt::format' for x in calls_in(b['body']) for c in callee_all(x))
             rep.check(R, f'{d.split(" as ")[0].lstrip("<")}|value', okv, 'value = date.to_string()', f'`{d}` does not present the printed date-time', facts.loc(b))
 
 
